@@ -3,6 +3,7 @@ From IQ Require Import CorrSupport Exons Corrector Corrector2 Junctions Junction
 From IQ.gen Require Import Tables Prims.
 From JC Require Import A1 A2 A3 A4.
 Import ListNotations. Open Scope Z_scope.
+Ltac flia := repeat match goal with H : forall _, _ |- _ => clear H end; lia.
 
 (* ================================================================ the loop of process_events, abstractly:
    read exon k = (L k, E k) for 0 <= k <= n, read junction k = (E k + 1, L (k+1) - 1) *)
@@ -147,77 +148,78 @@ Proof. intros Hij Hj Hfk Hlo Hhi Hm Hl Hu.
 Lemma step_ok i : 0 <= i < n -> exists b, step fl d (L 0, E n) R CI ireg II emap i = Ok b /\ blockP i b.
 Proof.
   intros Hi. unfold step. destruct (fk_ok i Hi) as (fk & -> & Hfk).
-  pose proof (LE_mono i (i + 1) ltac:(lia) ltac:(lia)) as (Mi1 & Mi2).
+  pose proof (LE_mono i (i + 1) ltac:(flia) ltac:(flia)) as (Mi1 & Mi2).
   destruct (lookup emap i) as [e|] eqn:Lk.
   2:{ (* no event at i *)
-    rewrite (py_nth_J CI i) by lia. cbn [opt_block]. eexists. split; [reflexivity|].
-    destruct (near_run_ok CI i i HCIlen HCI ltac:(lia) ltac:(lia)) as (N1 & N2). rewrite run_single in N1, N2.
-    apply blockP_intro; try lia; try assumption; try exact I; try (apply fk_lo; exact Hfk). }
-  destruct (Hmap _ _ Lk) as [(Hk & Hg)|(Hk & _ & Hg)]; [|exfalso; unfold gf in Hg; cbv zeta in Hg; lia].
+    rewrite (py_nth_J CI i) by flia. cbn [opt_block]. eexists. split; [reflexivity|].
+    destruct (near_run_ok CI i i HCIlen HCI ltac:(flia) ltac:(flia)) as (N1 & N2). rewrite run_single in N1, N2.
+    apply blockP_intro; try flia; try assumption; try exact I; try (apply fk_lo; exact Hfk). }
+  destruct (Hmap _ _ Lk) as [(Hk & Hg)|(Hk & _ & Hg)]; [|exfalso; unfold gf in Hg; cbv zeta in Hg; flia].
   unfold gp in Hg. cbv zeta in Hg. destruct Hg as (Gab & Gb & G1 & G2 & G3 & G4 & G5).
   set (a := fst (e_read e)) in *. set (b := snd (e_read e)) in *. subst i.
-  pose proof (LE_mono a (b + 1) ltac:(lia) ltac:(lia)) as (Mb1 & Mb2).
+  pose proof (LE_mono a (b + 1) ltac:(flia) ltac:(flia)) as (Mb1 & Mb2).
   (* fake terminal exon, left *)
   destruct (is_type e MES_fake_terminal_exon_left && f_fake_terminal fl) eqn:B1.
   { apply andb_true_iff in B1. destruct B1 as (T & Ff). destruct (G1 T) as (Ea & Eb & Hlen). rewrite Ea, Eb in *.
-    cbn [Z.eqb negb]. rewrite (py_nth_J R 0) by lia. rewrite (HR 0) by lia. cbn [opt_block snd]. eexists. split; [reflexivity|].
-    replace (L (0 + 1) - 1 + 1) with (L (0 + 1)) by lia.
+    cbn [Z.eqb negb]. rewrite (py_nth_J R 0) by flia. rewrite (HR 0) by flia. cbn [opt_block snd]. eexists. split; [reflexivity|].
+    replace (L (0 + 1) - 1 + 1) with (L (0 + 1)) by flia.
     assert (Hnil: fk = []).
     { destruct Hfk as [->|(Hmi & q & Hq & -> & H1 & H2)]; [reflexivity|]. exfalso.
-      destruct (Hleft Ff Hmi) as [C|C]; [lia|]. apply (C q Hq). split; assumption. }
-    subst fk. apply blockP_intro; try lia; try (left; reflexivity); try constructor; lia. }
+      destruct (Hleft Ff Hmi) as [C|C]; [flia|]. apply (C q Hq). split; assumption. }
+    subst fk. apply blockP_intro; try flia; try (left; reflexivity); try constructor; flia. }
   (* fake terminal exon, right *)
   destruct (is_type e MES_fake_terminal_exon_right && f_fake_terminal fl) eqn:B2.
   { apply andb_true_iff in B2. destruct B2 as (T & Ff). destruct (G2 T) as (Ea & Eb). rewrite Ea, Eb in *.
-    rewrite Z.eqb_refl. cbn [negb]. rewrite (py_nth_J R (n - 1)) by lia. rewrite (HR (n - 1)) by lia. cbn [opt_block fst]. eexists. split; [reflexivity|].
-    replace (E (n - 1) + 1 - 1) with (E (n - 1)) by lia. replace (n - 1 + 1) with n by lia.
-    apply blockP_intro; try lia; try assumption; try (apply fk_lo; exact Hfk); try constructor; try lia. }
+    rewrite Z.eqb_refl. cbn [negb]. rewrite (py_nth_J R (n - 1)) by flia. rewrite (HR (n - 1)) by flia. cbn [opt_block fst]. eexists. split; [reflexivity|].
+    replace (E (n - 1) + 1 - 1) with (E (n - 1)) by flia. replace (n - 1 + 1) with n by flia.
+    apply blockP_intro; try flia; try assumption; try (apply fk_lo; exact Hfk); try constructor; try flia. }
   (* terminal exon misalignment, left *)
   destruct (is_type e MES_terminal_exon_misalignment_left && f_terminal fl) eqn:B3.
   { apply andb_true_iff in B3. destruct B3 as (T & Ff). destruct (G3 T) as (Ea & Eb & Eia & HnI & Hn1 & F1 & F2 & F3). rewrite Ea, Eb, Eia in *.
-    rewrite (py_nth_J II 0) by (fold nI; lia). cbn [opt_block]. eexists. split; [reflexivity|].
-    pose proof (HIIin 0 ltac:(lia)) as (In1 & In2). pose proof (HIIwf 0 ltac:(lia)) as W0. pose proof (HLE 1 ltac:(lia)) as S1.
-    apply blockP_intro; try lia; try assumption; try (apply fk_ireg; exact Hfk).
+    rewrite (py_nth_J II 0) by (fold nI; flia). cbn [opt_block]. eexists. split; [reflexivity|].
+    pose proof (HIIin 0 ltac:(flia)) as (In1 & In2). pose proof (HIIwf 0 ltac:(flia)) as W0. pose proof (HLE 1 ltac:(flia)) as S1.
+    apply blockP_intro; try flia; try assumption; try (apply fk_ireg; exact Hfk).
     - apply (fk_ireg 0 fk Hfk).
-    - cbn [mono]. lia.
-    - constructor; [|constructor]. replace (0 + 1) with 1 by lia. repeat split; try lia. right. exists 0. repeat split; lia.
-    - replace (0 + 1) with 1 by lia. lia. }
+    - cbn [mono]. flia.
+    - constructor; [|constructor]. replace (0 + 1) with 1 by flia. repeat split; try flia. right. exists 0. repeat split; flia.
+    - replace (0 + 1) with 1 by flia. flia. }
   (* terminal exon misalignment, right *)
   destruct (is_type e MES_terminal_exon_misalignment_right && f_terminal fl) eqn:B4.
   { apply andb_true_iff in B4. destruct B4 as (T & Ff). destruct (G4 T) as (Ea & Eb & Eia & HnI & Hn1 & F1 & F2 & F3). rewrite Ea, Eb, Eia in *.
-    rewrite (py_nth_J II (nI - 1)) by (fold nI; lia). cbn [opt_block]. eexists. split; [reflexivity|].
-    pose proof (HIIin (nI - 1) ltac:(lia)) as (In1 & In2). pose proof (HIIwf (nI - 1) ltac:(lia)) as W0. pose proof (HLE (n - 1) ltac:(lia)) as S1.
-    replace (n - 1 + 1) with n by lia.
-    apply blockP_intro; try lia; try assumption; try (apply fk_lo; exact Hfk).
-    - cbn [mono]. lia.
-    - constructor; [|constructor]. repeat split; try lia. right. exists (nI - 1). repeat split; lia. }
+    rewrite (py_nth_J II (nI - 1)) by (fold nI; flia). cbn [opt_block]. eexists. split; [reflexivity|].
+    pose proof (HIIin (nI - 1) ltac:(flia)) as (In1 & In2). pose proof (HIIwf (nI - 1) ltac:(flia)) as W0. pose proof (HLE (n - 1) ltac:(flia)) as S1.
+    replace (n - 1 + 1) with n by flia.
+    apply blockP_intro; try flia; try assumption; try (apply fk_lo; exact Hfk).
+    - cbn [mono]. flia.
+    - constructor; [|constructor]. repeat split; try flia. right. exists (nI - 1). repeat split; flia. }
   (* the remaining branches *)
   assert (Else: forall l0, (l0 = run CI a b \/ l0 = run R a b) ->
             exists b0, Ok (mkblock a (b + 1) fk l0 NoUpd) = Ok b0 /\ blockP a b0).
   { intros l0 Hl0. eexists. split; [reflexivity|].
     assert (N: mono l0 /\ Forall (fun x => L a < fst x /\ fst x < L (b + 1) /\ snd x < E (b + 1) /\ afterfk a x) l0).
-    { destruct Hl0 as [-> | ->]; [apply near_run_ok; try assumption; lia|apply near_run_ok; try assumption; try lia; apply R_near]. }
-    destruct N as (N1 & N2). apply blockP_intro; try lia; try assumption; try exact I; try (apply fk_lo; exact Hfk). }
+    { destruct Hl0 as [-> | ->]; [apply near_run_ok; try assumption; flia|apply near_run_ok; try assumption; try flia; apply R_near]. }
+    destruct N as (N1 & N2). apply blockP_intro; try flia; try assumption; try exact I; try (apply fk_lo; exact Hfk). }
   assert (Else2: exists b0, (if mes_mem (e_type e) known_structure_types
                              then opt_block (py_slice CI a b) (fun l => mkblock a (b + 1) fk l NoUpd)
                              else opt_block (py_slice R a b) (fun l => mkblock a (b + 1) fk l NoUpd)) = Ok b0 /\ blockP a b0).
-  { destruct (mes_mem _ _); rewrite py_slice_J by lia; cbn [opt_block]; apply Else; [left|right]; reflexivity. }
+  { destruct (mes_mem _ _); rewrite py_slice_J by flia; cbn [opt_block]; apply Else; [left|right]; reflexivity. }
   destruct (in_misalignment_set fl e) eqn:B5; [|exact Else2].
   assert (T: is_type e MES_intron_shift = true \/ is_type e MES_exon_misalignment = true).
   { unfold in_misalignment_set in B5. apply orb_true_iff in B5. destruct B5 as [B5|B5]; apply andb_true_iff in B5; tauto. }
   destruct (G5 T) as (Eab & Hia & Hib & F1 & F2 & F3).
   set (ia := fst (e_iso e)) in *. set (ib := snd (e_iso e)) in *.
-  rewrite (py_nth_J II ia) by (fold nI; lia). rewrite (py_nth_J II ib) by (fold nI; lia).
+  rewrite (py_nth_J II ia) by (fold nI; flia). rewrite (py_nth_J II ib) by (fold nI; flia).
   destruct (py_contains_well_inside _ _ _); [|exact Else2].
-  replace (a =? b) with true by lia. cbn [negb]. rewrite py_slice_J by (try fold nI; lia). cbn [opt_block]. eexists. split; [reflexivity|].
+  clear Else Else2 B1 B2 B3 B4 B5 G1 G2 G3 G4 G5 Lk.
+  replace (a =? b) with true by flia. cbn [negb]. rewrite py_slice_J by (try fold nI; flia). cbn [opt_block]. eexists. split; [reflexivity|].
   rewrite <- Eab in *.
-  apply blockP_intro; try lia; try assumption; try exact I; try (apply fk_lo; exact Hfk).
+  apply blockP_intro; try flia; try assumption; try exact I; try (apply fk_lo; exact Hfk).
   - apply run_mono.
-    + intros k Hk. apply HIIwf. lia.
-    + intros k Hk1 Hk2. pose proof (HIIord k ltac:(lia) ltac:(lia)). pose proof (HIIwf k ltac:(lia)). lia.
+    + intros k Hk. apply HIIwf. flia.
+    + intros k Hk1 Hk2. pose proof (HIIord k ltac:(flia) ltac:(flia)). pose proof (HIIwf k ltac:(flia)). flia.
   - apply run_Forall. intros k Hk. destruct (F3 k Hk) as (F4 & F5).
-    destruct (II_mono ia k ltac:(lia) ltac:(lia)) as (M1 & _). destruct (II_mono k ib ltac:(lia) ltac:(lia)) as (_ & M2).
-    repeat split; try lia. right. exists k. repeat split; lia.
+    destruct (II_mono ia k ltac:(flia) ltac:(flia)) as (M1 & _). destruct (II_mono k ib ltac:(flia) ltac:(flia)) as (_ & M2).
+    repeat split; try flia. right. exists k. repeat split; flia.
 Qed.
 
 (* ---------------------------------------------------------------- the run of the loop *)
@@ -227,68 +229,68 @@ Fixpoint chainP (i:Z) (bs:list block) : Prop :=
 Lemma loop_ok : forall fuel i, 0 <= i <= n -> n - i <= Z.of_nat fuel ->
   exists bs, loop fl d (L 0, E n) R CI ireg II emap fuel i = Ok bs /\ chainP i bs.
 Proof. induction fuel as [|f IH]; intros i Hi Hf; cbn [loop]; unfold n_introns; change (Z.of_nat (length CI)) with (lenz CI); rewrite HCIlen.
-  - destruct (i <? n) eqn:C; [lia|]. exists []. split; [reflexivity|]. cbn. lia.
-  - destruct (i <? n) eqn:C; [|exists []; split; [reflexivity|cbn; lia]].
-    destruct (step_ok i ltac:(lia)) as (b & -> & Hb). pose proof Hb as (_ & Hnx & _).
-    destruct (IH (b_next b) ltac:(lia) ltac:(lia)) as (bs & -> & Hbs). exists (b :: bs). split; [reflexivity|]. cbn [chainP]. tauto. Qed.
+  - destruct (i <? n) eqn:C; [flia|]. exists []. split; [reflexivity|]. cbn. flia.
+  - destruct (i <? n) eqn:C; [|exists []; split; [reflexivity|cbn; flia]].
+    destruct (step_ok i ltac:(flia)) as (b & -> & Hb). pose proof Hb as (_ & Hnx & _).
+    destruct (IH (b_next b) ltac:(flia) ltac:(flia)) as (bs & -> & Hbs). exists (b :: bs). split; [reflexivity|]. cbn [chainP]. tauto. Qed.
 
 Lemma chain_block_ok : forall bs i, chainP i bs -> forallb (block_ok n) bs = true.
 Proof. induction bs as [|b t IH]; intros i H; [reflexivity|]. cbn [chainP] in H. destruct H as (Hb & Ht). cbn [forallb].
-  rewrite (IH _ Ht). destruct Hb as (Hi & Hnx & _). unfold block_ok. lia. Qed.
+  rewrite (IH _ Ht). destruct Hb as (Hi & Hnx & _). unfold block_ok. flia. Qed.
 
 Lemma chain_range : forall bs i, 0 <= i -> chainP i bs -> i <= n.
-Proof. intros [|b t] i Hi H; cbn [chainP] in H; [lia|]. destruct H as ((_ & Hnx & _) & _). lia. Qed.
+Proof. intros [|b t] i Hi H; cbn [chainP] in H; [flia|]. destruct H as ((_ & Hnx & _) & _). flia. Qed.
 
 Lemma chain_mono : forall bs i, 0 <= i -> chainP i bs ->
-  mono (emitted bs) /\ (0 < i -> Forall (fun x => L i < fst x) (emitted bs)).
+  mono (Corrector.emitted bs) /\ (0 < i -> Forall (fun x => L i < fst x) (Corrector.emitted bs)).
 Proof. induction bs as [|b t IH]; intros i Hi H; [split; [exact I|constructor]|]. cbn [chainP] in H. destruct H as (Hb & Ht).
-  destruct Hb as (_ & Hnx & Hm & Hf & Hu). destruct (IH (b_next b) ltac:(lia) Ht) as (I1 & I2). specialize (I2 ltac:(lia)).
-  unfold emitted in *. cbn [flat_map]. rewrite Forall_forall in Hf, I2. split.
-  - apply mono_app; [exact Hm|exact I1|]. intros x y Hx Hy. specialize (Hf x Hx). specialize (I2 y Hy). lia.
+  destruct Hb as (_ & Hnx & Hm & Hf & Hu). destruct (IH (b_next b) ltac:(flia) Ht) as (I1 & I2). specialize (I2 ltac:(flia)).
+  unfold Corrector.emitted in *. cbn [flat_map]. rewrite Forall_forall in Hf, I2. split.
+  - apply mono_app; [exact Hm|exact I1|]. intros x y Hx Hy. specialize (Hf x Hx). specialize (I2 y Hy). flia.
   - intros Hpos. apply Forall_app. split; apply Forall_forall.
-    + intros x Hx. specialize (Hf x Hx). unfold lo_of in Hf. destruct (b_upd b); try lia.
-    + intros y Hy. specialize (I2 y Hy). destruct (LE_mono i (b_next b) ltac:(lia) ltac:(lia)). lia. Qed.
+    + intros x Hx. specialize (Hf x Hx). unfold lo_of in Hf. destruct (b_upd b); try flia.
+    + intros y Hy. specialize (I2 y Hy). destruct (LE_mono i (b_next b) ltac:(flia) ltac:(flia)). flia. Qed.
 
 Lemma chain_end_nil : forall t, chainP n t -> t = [].
-Proof. intros [|b t] H; [reflexivity|]. cbn [chainP] in H. destruct H as ((_ & Hnx & _) & _). lia. Qed.
+Proof. intros [|b t] H; [reflexivity|]. cbn [chainP] in H. destruct H as ((_ & Hnx & _) & _). flia. Qed.
 
 Lemma chain_final_pos : forall bs i s, 0 < i -> chainP i bs -> s <= L i ->
   fst (final_region (s, E n) bs) = s /\ E i <= snd (final_region (s, E n) bs) /\
-  Forall (fun x => fst (final_region (s, E n) bs) < fst x /\ snd x < snd (final_region (s, E n) bs)) (emitted bs).
+  Forall (fun x => fst (final_region (s, E n) bs) < fst x /\ snd x < snd (final_region (s, E n) bs)) (Corrector.emitted bs).
 Proof. induction bs as [|b t IH]; intros i s Hi H Hs.
-  - cbn [chainP] in H. subst i. unfold final_region. cbn [fold_left fst snd]. repeat split; try lia. constructor.
+  - cbn [chainP] in H. subst i. unfold final_region. cbn [fold_left fst snd]. repeat split; try flia. constructor.
   - cbn [chainP] in H. destruct H as (Hb & Ht). destruct Hb as (_ & Hnx & _ & Hf & Hu).
-    destruct (LE_mono i (b_next b) ltac:(lia) ltac:(lia)) as (M1 & M2).
-    unfold final_region, emitted in *. cbn [fold_left flat_map]. unfold lo_of, hi_of in Hf. rewrite Forall_forall in Hf.
+    destruct (LE_mono i (b_next b) ltac:(flia) ltac:(flia)) as (M1 & M2).
+    unfold final_region, Corrector.emitted in *. cbn [fold_left flat_map]. unfold lo_of, hi_of in Hf. rewrite Forall_forall in Hf.
     destruct (b_upd b) as [|w|w] eqn:U; cbn [apply_upd fst snd].
-    + destruct (IH (b_next b) s ltac:(lia) Ht ltac:(lia)) as (I1 & I2 & I3). split; [exact I1|]. split; [lia|].
-      apply Forall_app. split; [|exact I3]. apply Forall_forall. intros x Hx. specialize (Hf x Hx). rewrite I1. lia.
-    + lia.
+    + destruct (IH (b_next b) s ltac:(flia) Ht ltac:(flia)) as (I1 & I2 & I3). split; [exact I1|]. split; [flia|].
+      apply Forall_app. split; [|exact I3]. apply Forall_forall. intros x Hx. specialize (Hf x Hx). rewrite I1. flia.
+    + flia.
     + destruct Hu as (Hn' & Hw). rewrite Hn' in Ht. apply chain_end_nil in Ht. subst t. cbn [fold_left flat_map fst snd].
-      rewrite app_nil_r. repeat split; try lia. apply Forall_forall. intros x Hx. specialize (Hf x Hx). lia. Qed.
+      rewrite app_nil_r. repeat split; try flia. apply Forall_forall. intros x Hx. specialize (Hf x Hx). flia. Qed.
 
 Lemma chain_final_0 bs : chainP 0 bs ->
   fst (final_region (L 0, E n) bs) <= snd (final_region (L 0, E n) bs) /\
-  Forall (fun x => fst (final_region (L 0, E n) bs) < fst x /\ snd x < snd (final_region (L 0, E n) bs)) (emitted bs).
-Proof. destruct bs as [|b t]; cbn [chainP]; [lia|]. intros (Hb & Ht). destruct Hb as (_ & Hnx & _ & Hf & Hu).
-  destruct (LE_mono 0 (b_next b) ltac:(lia) ltac:(lia)) as (M1 & M2). pose proof (HLE (b_next b) ltac:(lia)) as S1. pose proof (HLE 0 ltac:(lia)) as S0.
-  unfold final_region, emitted in *. cbn [fold_left flat_map]. unfold lo_of, hi_of in Hf. rewrite Forall_forall in Hf.
+  Forall (fun x => fst (final_region (L 0, E n) bs) < fst x /\ snd x < snd (final_region (L 0, E n) bs)) (Corrector.emitted bs).
+Proof. destruct bs as [|b t]; cbn [chainP]; [flia|]. intros (Hb & Ht). destruct Hb as (_ & Hnx & _ & Hf & Hu).
+  destruct (LE_mono 0 (b_next b) ltac:(flia) ltac:(flia)) as (M1 & M2). pose proof (HLE (b_next b) ltac:(flia)) as S1. pose proof (HLE 0 ltac:(flia)) as S0.
+  unfold final_region, Corrector.emitted in *. cbn [fold_left flat_map]. unfold lo_of, hi_of in Hf. rewrite Forall_forall in Hf.
   destruct (b_upd b) as [|w|w] eqn:U; cbn [apply_upd fst snd].
-  - destruct (chain_final_pos t (b_next b) (L 0) ltac:(lia) Ht ltac:(lia)) as (I1 & I2 & I3). unfold final_region, emitted in *.
-    split; [lia|]. apply Forall_app. split; [|exact I3]. apply Forall_forall. intros x Hx. specialize (Hf x Hx). rewrite I1. lia.
-  - destruct Hu as (_ & Hw). destruct (chain_final_pos t (b_next b) w ltac:(lia) Ht ltac:(lia)) as (I1 & I2 & I3). unfold final_region, emitted in *.
-    split; [lia|]. apply Forall_app. split; [|exact I3]. apply Forall_forall. intros x Hx. specialize (Hf x Hx). rewrite I1. lia.
+  - destruct (chain_final_pos t (b_next b) (L 0) ltac:(flia) Ht ltac:(flia)) as (I1 & I2 & I3). unfold final_region, Corrector.emitted in *.
+    split; [flia|]. apply Forall_app. split; [|exact I3]. apply Forall_forall. intros x Hx. specialize (Hf x Hx). rewrite I1. flia.
+  - destruct Hu as (_ & Hw). destruct (chain_final_pos t (b_next b) w ltac:(flia) Ht ltac:(flia)) as (I1 & I2 & I3). unfold final_region, Corrector.emitted in *.
+    split; [flia|]. apply Forall_app. split; [|exact I3]. apply Forall_forall. intros x Hx. specialize (Hf x Hx). rewrite I1. flia.
   - destruct Hu as (Hn' & Hw). rewrite Hn' in Ht. apply chain_end_nil in Ht. subst t. cbn [fold_left flat_map fst snd].
-    rewrite app_nil_r. split; [lia|]. apply Forall_forall. intros x Hx. specialize (Hf x Hx). lia. Qed.
+    rewrite app_nil_r. split; [flia|]. apply Forall_forall. intros x Hx. specialize (Hf x Hx). flia. Qed.
 
 Theorem loop_events_wf : exists bs, blocks fl d (L 0, E n) R CI ireg II emap = Ok bs /\
-  forallb (block_ok n) bs = true /\ mono_b (emitted bs) = true /\
+  forallb (block_ok n) bs = true /\ mono_b (Corrector.emitted bs) = true /\
   (fst (final_region (L 0, E n) bs) <=? snd (final_region (L 0, E n) bs)) = true /\
-  forallb (inside (final_region (L 0, E n) bs)) (emitted bs) = true.
-Proof. unfold blocks. destruct (loop_ok (2 * length CI + 2) 0 ltac:(lia)) as (bs & Hl & Hc).
-  { unfold lenz in HCIlen. lia. }
+  forallb (inside (final_region (L 0, E n) bs)) (Corrector.emitted bs) = true.
+Proof. unfold blocks. destruct (loop_ok (2 * length CI + 2) 0 ltac:(flia)) as (bs & Hl & Hc).
+  { unfold lenz in HCIlen. flia. }
   exists bs. split; [exact Hl|]. split; [eapply chain_block_ok; exact Hc|].
-  destruct (chain_mono bs 0 ltac:(lia) Hc) as (Hm & _). destruct (chain_final_0 bs Hc) as (F1 & F2).
-  split; [apply mono_b_spec; exact Hm|]. split; [lia|]. apply forallb_forall. rewrite Forall_forall in F2. intros x Hx.
-  specialize (F2 x Hx). unfold inside. lia. Qed.
+  destruct (chain_mono bs 0 ltac:(flia) Hc) as (Hm & _). destruct (chain_final_0 bs Hc) as (F1 & F2).
+  split; [apply mono_b_spec; exact Hm|]. split; [flia|]. apply forallb_forall. rewrite Forall_forall in F2. intros x Hx.
+  specialize (F2 x Hx). unfold inside. flia. Qed.
 End Loop.
